@@ -37,7 +37,7 @@ def _run_one(prop, spec, workdir, i, timeout):
     env.setdefault("VERIF_REPO", "/repo")
     env["CLIKIT_VERIF"] = "1"
     env.update(spec.get("_env", {}))
-    t0 = time.time()
+    t0 = time.perf_counter()
     try:
         p = subprocess.run(
             [PY, "-B", "-m", "rv.shard", prop, spec_path, out_path],
@@ -57,7 +57,7 @@ def _run_one(prop, spec, workdir, i, timeout):
                 res = json.load(f)
         except Exception as e:  # pragma: no cover
             err += "\nunreadable shard output: %r" % (e,)
-    return {"i": i, "rc": rc, "err": err[-2000:], "res": res, "wall": time.time() - t0}
+    return {"i": i, "rc": rc, "err": err[-2000:], "res": res, "wall": time.perf_counter() - t0}
 
 
 def main(argv):
@@ -75,7 +75,7 @@ def main(argv):
         replay_path = argv[argv.index("--replay") + 1]
 
     mod = load_check(prop)
-    t0 = time.time()
+    t0 = time.perf_counter()
     workdir = os.path.join(ROOT, "out", "run", "%s-%s-%d" % (prop, tier, os.getpid()))
     shutil.rmtree(workdir, ignore_errors=True)
     os.makedirs(workdir)
@@ -176,7 +176,7 @@ def main(argv):
             f.write(blob)
         new_paths.append((path, v))
 
-    wall = time.time() - t0
+    wall = time.perf_counter() - t0
     # ---- evidence -------------------------------------------------------
     if not replay_path and not os.environ.get("VERIF_NO_EVIDENCE"):
         cov = {
